@@ -17,7 +17,7 @@ def ExprResult.regs (r : ExprResult) : List Nat := r.val.regs
 /-- result register written by an instruction -/
 def Instr.writes : Instr → Option Nat
   | .exprValue _ r | .exprConst _ r | .exprStructValue _ _ r | .exprOp _ _ _ r | .call _ _ r
-  | .condExpr _ _ _ r | .logicCond _ _ _ r | .ext _ r => some r
+  | .condExpr _ _ _ r | .logicCond _ _ _ r | .ext _ _ r => some r
   | _ => none
 
 /-- registers read by an instruction (operands, logic inputs, subject of a conditional) -/
@@ -64,7 +64,7 @@ def Instr.usesValue : Instr → Option Value
 
 /-- tag of an extension instruction -/
 def Instr.extTag : Instr → Option Nat
-  | .ext t _ => some t
+  | .ext t _ _ => some t
   | _ => none
 
 def resultRegs (stack : List Instr) : List Nat := stack.filterMap Instr.writes
